@@ -69,3 +69,206 @@ Proof.
 Qed.
 Print Assumptions c03_check_transfer.
 Print Assumptions c03_run_transfer.
+
+(* ================================================================== *)
+(* End-to-end statements: "the checkers, as executed by vm_compute on the exact rationals of
+   msdm's output, returned all-true"  ==>  the clauses of property C03 over R.                  *)
+(* ================================================================== *)
+From Coq Require Import Lra Lia.
+From MSDM Require Import base.NumR theory.Bellman theory.VITheory theory.LAOStarTheory.
+Local Open Scope R_scope.
+
+Definition all_true11 : list bool := [true; true; true; true; true; true; true; true; true; true; true].
+Definition all_true6 : list bool := [true; true; true; true; true; true].
+
+Section Main.
+Variables (nS nA : nat) (P Rw : list (list (list Q))) (av : list (list bool)) (ab : list bool)
+          (ini : list Q) (g : Q).
+Variables (conv : bool) (ex : list bool) (V : list Q) (C : list bool) (pol : list nat)
+          (Pi : list (list Q)) (iv : Q) (tl : @ltols Q) (Vstar Nst : list Q).
+
+Definition mR : mdp R := mk_mdp nS nA (map3 Q2R P) (map3 Q2R Rw) av ab (map Q2R ini) (Q2R g).
+Definition oR : @laoout R := mk_lao conv ex (map Q2R V) C pol (map2 Q2R Pi) (Q2R iv).
+Definition tR : @ltols R := ltolsR tl.
+Definition VsR : nat -> R := untab (map Q2R Vstar).
+Definition NR : nat -> R := untab (map Q2R Nst).
+
+Section Final.
+Hypothesis Hchk :
+  @c03_check Q NumQ (mk_mdp nS nA P Rw av ab ini g) (mk_lao conv ex V C pol Pi iv) tl Vstar Nst
+  = all_true11.
+
+Lemma clauses :
+  wfb mR = true /\ c_initdist mR = true /\ c_conv oR = true /\ c_closed mR (masktab mR) oR = true /\
+  c_det mR oR = true /\ c_avail mR oR tR = true /\ c_cons mR (masktab mR) oR tR = true /\
+  c_fix mR (masktab mR) (map Q2R Vstar) = true /\ c_upper mR oR tR (map Q2R Vstar) = true /\
+  c_init mR oR tR = true /\ c_steps mR (masktab mR) oR (map Q2R Nst) = true.
+Proof.
+  pose proof Hchk as H. rewrite c03_check_transfer in H.
+  unfold c03_check, c03_clauses, all_true11 in H. injection H; intros. repeat split; assumption.
+Qed.
+
+Theorem main_converged : conv = true.
+Proof. destruct clauses as (_ & _ & H & _). exact H. Qed.
+
+Theorem main_optimum_exists : fixpoint mR VsR.
+Proof. destruct clauses as (_ & _ & _ & _ & _ & _ & _ & H & _). apply fixbT_fixpoint. exact H. Qed.
+
+Theorem main_explored_upper Vs :
+  Q2R g < 1 -> fixpoint mR Vs ->
+  forall s, (s < nS)%nat -> nthb ex s = true -> Vs s - Q2R (ups tl) <= lV oR s.
+Proof.
+  intros G HVs s Hs He. destruct clauses as (Hwf & _ & _ & _ & _ & _ & _ & Hfix & Hup & _).
+  apply (explored_upper mR oR tR (map Q2R Vstar) Vs Hwf Hfix Hup G HVs s Hs He).
+Qed.
+
+Theorem main_final_discounted Vs Vpi :
+  Q2R g < 1 -> 0 <= Q2R (rho tl) -> fixpoint mR Vs -> poleval mR (nthb C) (nthn pol) Vpi ->
+  forall s, (s < nS)%nat -> nthb C s = true ->
+    Vs s - Q2R (ups tl) <= lV oR s <= Vs s + Q2R (rho tl) / (1 - Q2R g) /\
+    Vs s - (Q2R (ups tl) + Q2R (rho tl) / (1 - Q2R g)) <= Vpi s <= Vs s /\
+    Rabs (lV oR s - Vpi s) <= Q2R (rho tl) / (1 - Q2R g).
+Proof.
+  intros G Hr HVs Hpe s Hs Hc.
+  destruct clauses as (Hwf & _ & _ & Hcl & _ & _ & Hcons & Hfix & Hup & _).
+  apply (final_discounted mR oR tR (map Q2R Vstar) Vs Vpi Hwf Hcl Hcons Hfix Hup Hr G HVs Hpe s Hs Hc).
+Qed.
+
+Theorem main_initial_discounted Vs Vpi :
+  Q2R g < 1 -> 0 <= Q2R (rho tl) -> 0 <= Q2R (ups tl) ->
+  fixpoint mR Vs -> poleval mR (nthb C) (nthn pol) Vpi ->
+  Rabs (Q2R iv - avg mR Vs) <= Q2R (itol tl) + (Q2R (ups tl) + Q2R (rho tl) / (1 - Q2R g)) /\
+  Rabs (avg mR Vpi - avg mR Vs) <= Q2R (ups tl) + Q2R (rho tl) / (1 - Q2R g).
+Proof.
+  intros G Hr Hu HVs Hpe.
+  destruct clauses as (Hwf & Hid & _ & Hcl & _ & _ & Hcons & Hfix & Hup & Hin & _).
+  apply (initial_discounted mR oR tR (map Q2R Vstar) Vs Vpi Hwf Hid Hcl Hcons Hfix Hup Hin Hr Hu G HVs Hpe).
+Qed.
+
+Theorem main_policy_total s :
+  preach mR oR s ->
+  nthb C s = true /\ nthb ex s = true /\ (nthn pol s < nA)%nat /\ avail mR s (nthn pol s) = true /\
+  forall a, (a < nA)%nat -> lPi oR s a = if (a =? nthn pol s)%nat then 1 else 0.
+Proof.
+  intros Hp. destruct clauses as (_ & _ & _ & Hcl & Hdet & _).
+  apply (policy_total mR oR Hcl Hdet s Hp).
+Qed.
+
+Theorem main_policy_available s a :
+  (s < nS)%nat -> (a < nA)%nat -> 0 < lPi oR s a -> avail mR s a = true.
+Proof.
+  intros Hs Ha Hp. destruct clauses as (_ & _ & _ & _ & _ & Hav & _).
+  apply (policy_available mR oR tR Hav s a Hs Ha Hp).
+Qed.
+
+Theorem main_poleval_exact :
+  Q2R (rho tl) = 0 -> poleval mR (nthb C) (nthn pol) (Vm mR (lV oR)).
+Proof.
+  intros E. destruct clauses as (_ & _ & _ & _ & _ & _ & Hcons & _).
+  apply cons0_poleval. rewrite <- E. apply (c_cons_spec mR oR tR Hcons).
+Qed.
+
+(* any discount factor (in particular gamma = 1): relative to the certified fixed point VsR and
+   with the expected-steps certificate NR *)
+Theorem main_final_general Vpi :
+  0 <= Q2R (rho tl) -> poleval mR (nthb C) (nthn pol) Vpi ->
+  forall s, (s < nS)%nat -> nthb C s = true ->
+    VsR s - Q2R (ups tl) <= lV oR s <= VsR s + Q2R (rho tl) * NR s /\
+    VsR s - (Q2R (ups tl) + Q2R (rho tl) * NR s) <= Vpi s <= VsR s /\
+    Rabs (lV oR s - Vpi s) <= Q2R (rho tl) * NR s.
+Proof.
+  intros Hr Hpe s Hs Hc.
+  destruct clauses as (Hwf & _ & _ & Hcl & _ & _ & Hcons & Hfix & Hup & _ & Hst).
+  apply (final_general mR oR tR (map Q2R Vstar) (map Q2R Nst) Vpi Hwf Hcl Hcons Hfix Hup Hst Hr Hpe s Hs Hc).
+Qed.
+
+Theorem main_initial_general Vpi B :
+  0 <= Q2R (rho tl) -> 0 <= Q2R (ups tl) ->
+  (forall s, (s < nS)%nat -> nthb C s = true -> NR s <= B) ->
+  poleval mR (nthb C) (nthn pol) Vpi ->
+  Rabs (Q2R iv - avg mR VsR) <= Q2R (itol tl) + (Q2R (ups tl) + Q2R (rho tl) * B) /\
+  Rabs (avg mR Vpi - avg mR VsR) <= Q2R (ups tl) + Q2R (rho tl) * B.
+Proof.
+  intros Hr Hu HB Hpe.
+  destruct clauses as (Hwf & Hid & _ & Hcl & _ & _ & Hcons & Hfix & Hup & Hin & Hst).
+  apply (initial_general mR oR tR (map Q2R Vstar) (map Q2R Nst) Vpi B Hwf Hid Hcl Hcons Hfix Hup Hst Hin Hr Hu HB Hpe).
+Qed.
+End Final.
+
+(* ---- trace conformance ---- *)
+Section Run.
+Variables (r : Q) (h : list Q) (l : list (rawstep Q)).
+Hypothesis Hrun :
+  @c03_run_raw Q NumQ (mk_mdp nS nA P Rw av ab ini g) (mk_lao conv ex V C pol Pi iv) Vstar r h l
+  = all_true6.
+
+Theorem main_run_final Vs Vpi :
+  Q2R g < 1 -> 0 <= Q2R r -> fixpoint mR Vs -> poleval mR (nthb C) (nthn pol) Vpi ->
+  (forall s, (s < nS)%nat -> nthb ex s = true -> Vs s - Q2R r / (1 - Q2R g) <= lV oR s) /\
+  (forall s, (s < nS)%nat -> nthb C s = true ->
+     Vs s - Q2R r / (1 - Q2R g) <= lV oR s <= Vs s + Q2R r / (1 - Q2R g) /\
+     Vs s - (Q2R r / (1 - Q2R g) + Q2R r / (1 - Q2R g)) <= Vpi s <= Vs s /\
+     Rabs (lV oR s - Vpi s) <= Q2R r / (1 - Q2R g)).
+Proof.
+  intros G Hr HVs Hpe.
+  pose proof Hrun as H. rewrite c03_run_transfer in H.
+  unfold c03_run_raw, c03_run, c03_run_clauses, all_true6 in H.
+  injection H as Hwf Hcl Hfix Hadm Hok Hsync.
+  pose (t' := mkLtols (Q2R r) 0 0 0 : @ltols R).
+  apply (run_final mR oR t' (map Q2R Vstar) (untab (map Q2R h)) (mk_steps (map stepR l)) Vs Vpi
+           Hwf Hcl Hfix Hadm Hok Hsync Hr G HVs Hpe).
+Qed.
+End Run.
+
+End Main.
+
+(* ================================================================== *)
+(* Non-vacuity: a concrete 4-state MDP, the result and the 3-iteration run LAO* produces on it
+   with the heuristic h = 0 (s0 -a0-> s1 -> s3 costs 1+1; s0 -a1-> s2|s3 costs 4; s3 absorbing
+   with a paying self-loop that must be ignored; s2 is explored but never expanded).          *)
+(* ================================================================== *)
+Local Open Scope Q_scope.
+Definition exP : list (list (list Q)) :=
+  [ [[0; 1; 0; 0]; [0; 0; 1#2; 1#2]]; [[0; 0; 0; 1]; [0; 0; 0; 0]];
+    [[0; 0; 0; 1]; [0; 0; 0; 0]]; [[0; 0; 0; 1]; [0; 0; 0; 0]] ].
+Definition exR : list (list (list Q)) :=
+  [ [[0; -1; 0; 0]; [0; 0; -4; -4]]; [[0; 0; 0; -1]; [0; 0; 0; 0]];
+    [[0; 0; 0; -2]; [0; 0; 0; 0]]; [[0; 0; 0; 5]; [0; 0; 0; 0]] ].
+Definition exAv := [[true; true]; [true; false]; [true; false]; [true; false]].
+Definition exAb := [false; false; false; true].
+Definition exIni : list Q := [1; 0; 0; 0].
+Definition exVs : list Q := [-3#2; -1; -2; 0].
+Definition exV : list Q := [-3#2; -1; 0; 0].
+Definition exC := [true; true; false; true].
+Definition exPol := [0; 0; 0; 0]%nat.
+Definition exPi : list (list Q) := [[1; 0]; [1; 0]; [1; 0]; [1; 0]].
+Definition exT : @ltols Q := mkLtols 0 0 0 0.
+Definition exN : list Q := [2; 2; 2; 2].
+Definition exH : list Q := [0; 0; 0; 0].
+Definition exTrace : list (rawstep Q) :=
+  [ (0%nat, [true; false; false; false], [true; false; false; false], [-1; 0; 0; 0], exPol);
+    (1%nat, [true; true; false; false], [true; true; false; false], [-3#2; -1; 0; 0], exPol);
+    (3%nat, [true; true; false; true], [true; true; false; true], [-3#2; -1; 0; 0], exPol) ].
+
+Example ex_check :
+  @c03_check Q NumQ (mk_mdp 4 2 exP exR exAv exAb exIni (1#2))
+     (mk_lao true [true; true; true; true] exV exC exPol exPi (-3#2)) exT exVs exN = all_true11.
+Proof. vm_compute. reflexivity. Qed.
+
+Example ex_run :
+  @c03_run_raw Q NumQ (mk_mdp 4 2 exP exR exAv exAb exIni (1#2))
+     (mk_lao true [true; true; true; true] exV exC exPol exPi (-3#2)) exVs 0 exH exTrace = all_true6.
+Proof. vm_compute. reflexivity. Qed.
+
+(* an optimum exists and the policy-evaluation hypothesis of the theorems is satisfiable *)
+Example ex_hyps :
+  fixpoint (mR 4 2 exP exR exAv exAb exIni (1#2)) (VsR exVs) /\
+  poleval (mR 4 2 exP exR exAv exAb exIni (1#2)) (nthb exC) (nthn exPol)
+          (Vm (mR 4 2 exP exR exAv exAb exIni (1#2))
+              (lV (oR true [true; true; true; true] exV exC exPol exPi (-3#2)))).
+Proof.
+  split.
+  - apply (main_optimum_exists 4 2 exP exR exAv exAb exIni (1#2) true _ exV exC exPol exPi _ exT exVs exN ex_check).
+  - apply (main_poleval_exact 4 2 exP exR exAv exAb exIni (1#2) true _ exV exC exPol exPi _ exT exVs exN ex_check).
+    unfold Q2R; simpl; lra.
+Qed.
